@@ -21,7 +21,8 @@ RULE = ("E1/E2 over a BF2 generator: ('blob', type, size, line size, grouping) e
         "entries over 3 hardware ids x negate x continue. Oracle: payload == the image the lines were generated from; tags, order, comments and "
         "accept/reject == reference importer; filter text has the same truth table as the bytes. Distinct = case tuples."
         " Instruction cases are also imported through a file name (same result as through a stream); CRC values with 1, 6, 7, 9, 10 digits, lower case, empty, non-hex; a header / instruction named like the parser's internal data marker."
-        ' Multi-section files include sections under an interface the converter does not support (left out, data and all); header comments whose value contains a colon.')
+        ' Multi-section files include sections under an interface the converter does not support (left out, data and all); header comments whose value contains a colon.'
+        " Added: ('lineidx', type, size, numbering) line-index numberings that wrap at FFFF, restart, run backwards, are constant or shuffled - payloads are defined by file order / addresses, never by the running index.")
 ASSUMPTIONS = [
     "the BF2 grammar (':' lines = index, tag type, length, len|offset|payload; FE/FF markers; '#>' instructions; '##' header values) is "
     "reverse-engineered from the importer because the repository contains no BF2 sample",
@@ -134,6 +135,12 @@ def cases(ctx):
         for size in (1, 5, 33, 300):
             for ls in (1, 16, 250):
                 yield ("compat", t, size, ls, "page")
+    # the running line index at the start of every data line is bookkeeping of the BF2 writer, not an ordering: numbering that
+    # wraps at FFFF, restarts, runs backwards or is constant must not change any payload
+    for t in (0x84, 0x70, 0x35, 0x36):
+        for size in (9, 40):
+            for numbering in ("wrap", "zero", "descending", "restart", "shuffled"):
+                yield ("lineidx", t, size, numbering)
     for t in range(0x30, 0xA9):
         yield ("types", t)
     # every tag type as a group that FOLLOWS a section whose data is still pending / already closed, for 3 kinds of first section
@@ -286,6 +293,26 @@ def run_case(ctx, case):
         if got is not None and kind == "blob" and (len(got.components) != 1 or got.components[0].blob != img):
             o.viol("payload|not-image", "imported payload is not the image the lines were generated from")
         o.extra = {"data_lines": len(lines)}
+        return o
+    if kind == "lineidx":
+        _, t, size, numbering = case
+        img = image(ctx, "lineidx-%d" % size, size)
+        lines = B.image_lines(t, img, 4, extra=(b"\xC5" if t in (0x84, 0x70) else b""))
+        nl = len(lines)
+        idx = {"wrap": [(0xFFFD + i) & 0xFFFF for i in range(nl)], "zero": [0] * nl, "descending": [nl - i for i in range(nl)],
+               "restart": [i % 3 for i in range(nl)], "shuffled": [(i * 7 + 3) % nl for i in range(nl)]}[numbering]
+        lines = [(lt, idx[i], tag, extra) for i, (lt, _, tag, extra) in enumerate(lines)]
+        evs = list(HEAD)
+        if t == 0x70:
+            evs.append(("instr", "SELECT_IF", {"PROTOCOL": "BRP"}))
+        evs += [("group", lines), ("instr", "REBOOT", {})]
+        got = compare(o, evs, "type %02X size %d, line index numbering %s" % (t, size, numbering))
+        if got is not None and t == 0x35 and (len(got.components) != 1 or got.components[0].blob != img):
+            o.viol("payload|not-image", "imported payload is not the image the lines were generated from (line index numbering %s)" % numbering)
+        if got is not None and t in (0x84, 0x70):
+            want = b"".join(bytes.fromhex(B.render_line(ln)[1:]) for ln in lines)
+            if len(got.components) != 1 or got.components[0].blob != want:
+                o.viol("payload|not-file-order", "BF2-compatible payload is not the raw lines in file order (line index numbering %s)" % numbering)
         return o
     if kind == "gap":
         _, n, at, gk = case
